@@ -5,7 +5,7 @@
     interpreter with the gas, the creation flag and the sender balance the implementation used. *)
 From Coq Require Import List Bool NArith.
 Import ListNotations.
-From Ont Require Export Lib.Bytes Lib.CorrLib Gen.EvmEnvelopeGen Model.EvmEnvelope.
+From Ont Require Export Lib.Bytes Lib.CorrLib Gen.EvmEnvelopeGen Model.EvmEnvelope Model.EvmFrames.
 Local Open Scope N_scope.
 Open Scope bool_scope.
 
@@ -75,16 +75,18 @@ Definition clean_unit : (addr -> bool) -> unit -> unit := fun _ u => u.
 
 Inductive case :=
 | CTx (chain height receiver : N) (pre : list acct) (m : msg) (o : oracle) (r : obs) (post : list acct)
-| CSuicide (pre : list acct) (from to value beneficiary : N) (post : list acct) (suicided : list N).
+| CSuicide (pre : list acct) (from to value beneficiary : N) (post : list acct) (suicided : list N)
+| CTree (height : N) (pre : list acct) (sender : N) (create : bool) (target value : N) (ok : bool)
+        (body : list effect) (post : list acct) (suicided : list N).
 
 Definition case_ok (c : case) : bool :=
   match c with
   | CTx chain height receiver pre m o r post =>
       let e := mkEnv chain height receiver in
       let '(out, s') := handle_eip155 clean_unit (oracle_run o) e (st_of pre) m in
+      (* [post] lists the accounts of [pre] whose record changed; the others must be unchanged *)
       obs_ok out r && forallb (acct_ok s') post
-      (* the recorded post-state covers at least the recorded pre-state *)
-      && forallb (fun x => match find_acct post (a_id x) with Some _ => true | None => false end) pre
+      && forallb (fun x => match find_acct post (a_id x) with Some _ => true | None => acct_ok s' x end) pre
   | CSuicide pre from to value ben post su =>
       (* evm.Call into a contract whose code is `PUSH beneficiary; SELFDESTRUCT`: the nonce step of
          TransitionDb, the value transfer, then opSuicide *)
@@ -92,6 +94,14 @@ Definition case_ok (c : case) : bool :=
       let s1 := op_selfdestruct (transfer s0 from to value) to ben in
       forallb (acct_ok s1) post
       && forallb (fun x => Bool.eqb (suicided s1 (a_id x)) (existsb (N.eqb (a_id x)) su)) post
+  | CTree height pre sender create target value ok body post su =>
+      (* [pre] is the state after buyGas; TransitionDb advances the nonce itself before evm.Call *)
+      let s0 := if create then st_of pre
+                else set_nonce (st_of pre) sender (next_nonce (nonce (st_of pre) sender)) in
+      let s1 := run_effect height sender s0 (EFrame (if create then KCreate else KCall) target value ok body) in
+      forallb (acct_ok s1) post
+      && forallb (fun x => match find_acct post (a_id x) with Some _ => true | None => acct_ok s1 x end) pre
+      && forallb (fun x => Bool.eqb (suicided s1 (a_id x)) (existsb (N.eqb (a_id x)) su)) pre
   end.
 
 Definition mismatches := mism case_ok.
